@@ -29,6 +29,7 @@ type assignmentBuilder struct {
 	rhsVar            gmodel.Var       // The variable on the right-hand side of the assignment.
 	additionalArgVars []gmodel.Var     // The additional arguments to use in the assignment.
 	funcName          string           // The name of the method being generated.
+	retError          bool             // Whether the method being generated returns an error.
 	copiers           []*bmodel.Copier // The list of copiers used in the generated code.
 }
 
@@ -50,6 +51,7 @@ func newAssignmentBuilder(
 		rhsVar:            rhsVar,
 		additionalArgVars: additionalArgs,
 		funcName:          m.Name(),
+		retError:          m.RetError(),
 	}
 }
 
@@ -253,7 +255,7 @@ func (b *assignmentBuilder) createWithConverter(lhs, rhs bmodel.Node, converter 
 	lhsExpr := lhs.AssignExpr()
 	posStr := b.fset.Position(converter.Pos())
 
-	if converterNode != nil {
+	if converterNode != nil && (!converter.RetError() || b.retError) {
 		rhsExpr := converterNode.AssignExpr()
 		logger.Printf("%v: assignment found: %v = %v, err", posStr, lhsExpr, rhsExpr)
 		return gmodel.SimpleField{LHS: lhsExpr, RHS: rhsExpr, Error: converter.RetError()}, nil
@@ -287,7 +289,7 @@ func (b *assignmentBuilder) createWithMapper(lhs, rhs bmodel.Node, mapper *optio
 	lhsExpr := lhs.AssignExpr()
 	posStr := b.fset.Position(mapper.Pos())
 
-	if mappedNode != nil {
+	if mappedNode != nil && (!mappedNode.ReturnsError() || b.retError) {
 		rhsExpr := mappedNode.AssignExpr()
 		logger.Printf("%v: assignment found: %v = %v", posStr, lhs, rhs)
 		return gmodel.SimpleField{LHS: lhsExpr, RHS: rhsExpr, Error: mappedNode.ReturnsError()}, nil
@@ -323,7 +325,7 @@ func (b *assignmentBuilder) createWithTemplatedMapper(
 	lhsExpr := lhs.AssignExpr()
 	posStr := b.fset.Position(mapper.Pos())
 
-	if mappedNode != nil {
+	if mappedNode != nil && (!mappedNode.ReturnsError() || b.retError) {
 		rhsExpr := mappedNode.AssignExpr()
 		logger.Printf("%v: assignment found: %v = %s", posStr, lhs, rhsExpr)
 		return gmodel.SimpleField{LHS: lhsExpr, RHS: rhsExpr, Error: mappedNode.ReturnsError()}, nil
